@@ -34,6 +34,7 @@ func checkC04(c *Ctx) {
 	c.rule("C04.R3", "concatenation: one ascending pass, at most one write per element (literal or ToString of the evaluated expression), the builder's content is what is parsed; TEXT tokens and hashtags are forwarded in order", 6)
 	c.rule("C04.R4", "display form: integer formatter under an integrality guard, shortest-round-trip float64 formatter otherwise, True/False constants, strings verbatim", 4)
 	c.rule("C04.R5", "the markup stage unescapes only \\[ and \\] (C13.R5)", 1)
+	c04Display(c) // Value.ToString: independent of the runner's representation (and a premise of C19.R3)
 	if !m.ok(c, "C04") {
 		return
 	}
@@ -414,7 +415,6 @@ func checkC04(c *Ctx) {
 	// ----- R3
 	c04Concat(c, m)
 	// ----- R4
-	c04Display(c)
 	// ----- R5
 	tmp := newCtx(c.Prop, c.Tier, w)
 	tmp.rule("C13.R5", "", 0)
